@@ -150,5 +150,5 @@ def initialiser_keeps_decided_flags(ctx):
         res.check(ok, 'R-INIT.flags', f.fq, f"`{short(st, 60)}` only fills a flag that is still None",
                   fail_detail="an already decided flag (False: a required particle that was emptied again) is overwritten with True when the initialiser runs on a tree "
                               "whose root was replaced by a duplication wrapper: the requirement is lost and an invalid element serialises",
-                  key=f"R-INIT.flags|overwrite|{'guarded-branch' if guards else 'unguarded'}|{sorted(lab for _, lab in guards)}", line=node.line)
+                  key="R-INIT.flags|overwrite-without-none-test", line=node.line)
     res.floor('R-INIT.flags stores', n, 2)
